@@ -1110,13 +1110,13 @@ func (c *checker) sectionC(sets []state, maxLen, maxLenViews, maxLenWrite int) {
 				if cause != "" {
 					key = fmt.Sprintf("iter-divergence %s-vs-model explained-by=%s src=%s", be.name, cause, src)
 				} else {
-					key = fmt.Sprintf("iter-divergence %s-vs-model unexplained src=%s prefix=%s upper=%v at=%s",
-						be.name, src, hx(cf.prefix), cf.ub, situation(keys, s, prog, i))
+					key = fmt.Sprintf("iter-divergence %s-vs-model unexplained src=%s prefix=%s upper=%v",
+						be.name, src, hx(cf.prefix), cf.ub)
 				}
 				c.viol.add(key, rk, func() any {
 					return map[string]any{"view_contents": s.canon(), "prefix": hx(cf.prefix), "withUpperBound": cf.ub,
 						"program": progString(prog), "first_differing_step": i, "model": []string(want), "backend_returned": []string(got),
-						"backend": be.name, "source": src, "model_keys_in_range": hexList(keys)}
+						"backend": be.name, "source": src, "model_keys_in_range": hexList(keys), "situation_of_first_differing_step": situation(keys, s, prog, i)}
 				})
 				return
 			}
